@@ -170,6 +170,21 @@ Example C11_example :
              is_Some (s' !! [[97%N]; [98%N]; [99%N]]) /\ is_Some (s' !! [[97%N]; [98%N]]) /\ s' !! [[98%N]] = None.
 Proof. eexists. vm_compute. repeat split; eauto. Qed.
 
+(** a backend's native copy / move applies within ONE instance only: between two different instances copy_file and
+    move_file are the stream transfer (create the destination, copy the bytes, for a move remove the source) - never the
+    source backend's rename with the destination's path string resolved inside the source *)
+Theorem C11_cross_instance_takes_the_stream_path : forall (v v' : vfs) (c : fscall) slow ev,
+  v_id v <> v_id v' -> fast_path v v' c slow ev = slow.
+Proof. intros v v' c slow ev H. unfold fast_path. now apply Nat.eqb_neq in H as ->. Qed.
+
+Theorem C11_cross_instance_move_file : forall (v v' : vfs) p p', v_id v <> v_id v' ->
+  vp_move_file v p v' p' =
+  relabel (try* ex := vp_exists v' p' in
+           if ex then ret_err EOther p' else stream_copy v p v' p' (vp_remove_file v p)) p.
+Proof.
+  intros v v' p p' H. unfold vp_move_file, fast_path. now apply Nat.eqb_neq in H as ->.
+Qed.
+
 Print Assumptions C11_create_dir_all_exact.
 Print Assumptions C11_create_dir_all_loop.
 Print Assumptions C11_transfer_errors.
@@ -185,3 +200,5 @@ Print Assumptions C11_copy_dir_example.
 Print Assumptions C11_listing_ignores_values.
 Print Assumptions C11_copy_dir_within_instance.
 Print Assumptions C11_move_dir_within_instance.
+Print Assumptions C11_cross_instance_takes_the_stream_path.
+Print Assumptions C11_cross_instance_move_file.
